@@ -117,11 +117,11 @@ static void part_fp(const std::vector<unsigned>& ns, unsigned nseeds, unsigned s
 
 
 // part=slow : the stochastic model with the tiny damping decrements of runs with thousands of steps per synchrotron period and a long damping time
-//             (the program's defaults give 4e-6): an equilibrium ensemble keeps its mean and width over millions of steps.  Thorough tier only.
-static void part_slow() {
-    const unsigned n = 64, NP = 256;
-    for (int ie = 0; ie < 3; ie++) for (int sy = 0; sy < 2; sy++) {
-        const double e1 = ie == 0 ? 1.5e-7 : ie == 1 ? 4e-7 : 4.4e-6; const unsigned T = ie == 2 ? 1000000 : 3000000;
+//             (the program's defaults give 4e-6): an equilibrium ensemble keeps its mean and width over millions of steps.
+static void part_slow(bool deep) {
+    const unsigned n = 64, NP = 1024;
+    for (int ie = 0; ie < (deep ? 3 : 1); ie++) for (int sy = 0; sy < (deep ? 2 : 1); sy++) {     // quick tier: the smallest decrement only, half the horizon
+        const double e1 = ie == 0 ? 1.5e-7 : ie == 1 ? 4e-7 : 4.4e-6; const unsigned T = ie == 2 ? 1000000 : deep ? 6000000 : 3000000;
         std::string kase = mcx::Desc()("part", "slow")("n", n).f("e1", e1)("shifty", sy)("steps", T).str();
         if (!R.mine(kase)) continue;
         if (R.out_of_time()) { R.not_completed = kase; return; }
@@ -138,13 +138,13 @@ static void part_slow() {
         R.eval(kase, mcx::fnv(en.data(), sizeof(PhaseSpace::Position) * en.size(), mcx::fnvs(kase)), false);
         const double shift = (mu - zb) / sig, ratio = std::sqrt(var) / sig;
         R.maxnum("worst_slow_ensemble_shift_in_sigma", std::fabs(shift)); R.maxnum("worst_slow_ensemble_width_deviation", std::fabs(ratio - 1));
-        // 256 particles: the mean is known to 0.06 sigma, the width to 4.4 % - bounds at four standard errors
-        if (!inside || !(std::fabs(shift) <= 0.25) || !(ratio >= 0.8 && ratio <= 1.25)) {
+        // 1024 particles: the mean is known to 0.03 sigma, the width to 2.2 % - bounds at four standard errors
+        if (!inside || !(std::fabs(shift) <= 0.125) || !(ratio >= 0.91 && ratio <= 1.09)) {
             char d[240]; snprintf(d, 240, "after %u steps (%.2f damping times) the ensemble mean is %.3f sigma off the zero-energy row (start %.3f) and its width %.3f of the equilibrium width (start %.3f)", T, T * e1, shift, (mu0 - zb) / sig, ratio, std::sqrt(v0) / sig);
             R.violate("C15/FokkerPlanck/track=3/slow-damping/ensemble-not-stationary", kase, d);
         }
     }
-    R.bound_done("slow: stochastic model, decrements 1.5e-7, 4e-7, 4.4e-6 x 2 zero-bin shifts, ensemble of 256 over 1-3 million steps");
+    R.bound_done("slow: stochastic model, decrements 1.5e-7, 4e-7, 4.4e-6 x 2 zero-bin shifts, ensemble of 1024 over 1-6 million steps");
 }
 
 // part=chain : the real map classes over several consecutive steps (static and dynamic RF kick with modulation / noise, drift with
@@ -220,6 +220,6 @@ int main(int argc, char** argv) {
     part_kick(D ? std::vector<unsigned>{12, 16, 17, 24, 32, 33} : std::vector<unsigned>{12, 16, 17, 24});
     part_fp(T ? std::vector<unsigned>{12, 16, 17, 32, 33, 48} : std::vector<unsigned>{12, 13, 32}, T ? 32 : 4, T ? 400 : 200);
     part_chain(D ? std::vector<unsigned>{16, 17, 32, 33, 64} : std::vector<unsigned>{16, 17, 32}, D ? 24 : 12);
-    if (D) part_slow();
+    if (R.block == 1) part_slow(D);     // (once: in the round-robin pass)
     return R.finish();
 }
